@@ -317,6 +317,30 @@ def depth_cases(ctx):
     return out
 
 
+def comment_body_cases(ctx):
+    """comments and hints of every form with every kind of BODY — line breaks of each kind inside block comments/hints, stars, slashes, quotes, other
+    comment openers, nothing at all: which comments are hints is decided by how they START, whatever the body"""
+    out = []
+    # (no blank in front of a line end and no CR inside a body: the serializer rewrites those inside any comment — KF-C06-2, not this property's subject)
+    bodies = ['', 'x', ' LEADING(e d)\n USE_NL(d) ', 'a\nb', '\n', '\n\nx\n', ' * ', '**', ' / ', " it's ", ' -- x ', ' /* x ', '+', ' +h', ' é ß ']
+    for b in bodies:
+        for form in ('/*%s*/', '/*+%s*/', '/* %s */', '/*+ %s */'):
+            c = form % b
+            if ' \n' in c:
+                continue
+            for text in ('select %s a from t' % c, 'select a %s, b from t where x = 1 %s' % (c, c), '%s\nselect 1; %s select 2' % (c, c), 'select f(a %s) from t' % c):
+                for o, lay in (({'strip_comments': True}, {}), ({'strip_comments': True}, {'reindent': True}), ({'strip_comments': True, 'keyword_case': 'upper'}, {})):
+                    out.append((text, o, lay))
+        if '\n' not in b and b == b.strip() and b:
+            for form in ('--%s\n', '--+%s\n', '# %s\n', '# +%s\n'):
+                c = form % b
+                for text in ('select a %sfrom t' % c, 'select a, %s b from t %s' % (c, c)):
+                    for o, lay in (({'strip_comments': True}, {}), ({'strip_comments': True}, {'reindent': True})):
+                        out.append((text, o, lay))
+    ctx.count('sweep.comment_bodies', len(out))
+    return out
+
+
 def run(ctx):
     rng = ctx.rng
     g = grammar.Gen(rng)
@@ -331,7 +355,7 @@ def run(ctx):
         cs.append((text, opts, layout))
     for c in streams.corpus('C08'):
         cs.append((c['input'], c['options'], {}))
-    sweeps = truncate_edge_cases(ctx) + adjacency_cases(ctx) + class_cases(ctx) + truncate_cases(ctx) + depth_cases(ctx) + position_cases(ctx)
+    sweeps = truncate_edge_cases(ctx) + adjacency_cases(ctx) + class_cases(ctx) + truncate_cases(ctx) + depth_cases(ctx) + position_cases(ctx) + comment_body_cases(ctx)
     for text, opts, layout in cs:
         for k in opts:
             ctx.count('opt:' + k)
